@@ -561,7 +561,9 @@ def do_query(h, k):
                 env.render_action(h.real_actions[k % len(h.real_actions)])
             elif name == "get_action_mask":
                 if h.flat:
-                    env.get_action_mask()
+                    m_ = env.get_action_mask()
+                    if isinstance(m_, np.ndarray) and m_.flags.writeable:
+                        m_[...] = 1
             elif name == "get_minimum_hops":
                 env.get_minimum_hops()
             elif name == "get_score_upper_bound":
@@ -569,7 +571,8 @@ def do_query(h, k):
             elif name == "goal_reached":
                 env.goal_reached()
             elif name == "generate_initial_state":
-                env.generate_initial_state()
+                got = env.generate_initial_state()
+                got.tensor[...] = 1.0           # the caller's own state object (assumed-breach planning ...)
             elif name == "generate_random_initial_state":
                 env.generate_random_initial_state()
             elif name == "str":
